@@ -4,6 +4,16 @@ selftest/last_run.json (which checks catch which changes)."""
 import json, os, re
 HERE = os.path.dirname(os.path.dirname(os.path.abspath(__file__)))
 WHAT = {
+ 'S-C01-6': 'ADJACENT_FILES generator uses File::left()/right(), which wrap: file A is adjacent to H and H to A (en passant "round the board")',
+ 'S-C02-6': 'make_move copies `*self` into the output only when the stored hashes differ: same placement with other side/rights keeps stale fields',
+ 'S-C03-6': 'double-push branch moved after the side flip together with its direct-check line: `!side_to_move` now names the pawn\'s colour',
+ 'S-C06-6': 'FEN placement field assembled in a 64-byte stack buffer (the seven `/` forgotten): crowded positions panic',
+ 'S-C07-6': 'is_sane castling conjuncts merged into one mask over kings|rooks: an own rook on e1 vouches for the king',
+ 'S-C08-6': 'castle keys folded into the stored hash; add_castle_rights xors castles(add) instead of castles(old.add(add))',
+ 'S-C10-6': 'result() replays the log itself and names the winner by the parity of the ply count (start side dropped)',
+ 'S-C11-6': 'result() gate of can_declare_draw replaced by a last-action test up front and a status test placed after the fifty-move `return true`',
+ 'S-C12-6': 'source rank read as digit with `d <= 8` guard only: "0" underflows (panic in debug, rank 8 in release)',
+ 'S-C14-6': 'pinned-pawn entries pushed with promotion flag `false`: a diagonally pinned pawn capturing the pinner on the back rank yields one non-promotion move',
  'S-C04-5': 'update_pin_info masks the enemy army to the king\'s lines once and returns early when that is empty: a knight check from FEN is lost (smothered mate reads Ongoing)',
  'S-C05-5': 'knight-check line made branch-free; in make_move it sits before the promotion is applied: e7e8=N+ leaves checkers empty',
  'S-C09-5': 'Zobrist::en_passant takes the square and derives the column as index / 8 (the rank): all files of a colour share one key',
